@@ -510,6 +510,34 @@ pub fn release_scenario_strategy(cfgs: BoxedStrategy<Cfg>) -> BoxedStrategy<Hist
         .boxed()
 }
 
+/// Structured generator: bonds of both tokens, then reward rounds (rewards of several coins accrue on several
+/// validators, then UpdateGlobalIndex), interleaved with a few generated operations of the given profile.
+pub fn reward_scenario_strategy(p: &Profile, cfgs: BoxedStrategy<Cfg>) -> BoxedStrategy<History> {
+    let round = (
+        proptest::collection::vec(
+            (0u8..5, prop_oneof![4 => Just(0u8), 4 => Just(1u8), 1 => Just(2u8), 1 => Just(3u8)], amt_strategy()),
+            1..5,
+        ),
+        proptest::collection::vec(op_strategy(p), 0..4),
+    );
+    (
+        cfgs,
+        proptest::collection::vec(bond_strategy(p), 2..6),
+        proptest::collection::vec(round, 1..6),
+    )
+        .prop_map(|(cfg, mut ops, rounds)| {
+            for (accruals, others) in rounds {
+                for (v, coin, amt) in accruals {
+                    ops.push(Op::Accrue { v, coin, amt });
+                }
+                ops.push(Op::UpdateIndex { by: 0 });
+                ops.extend(others);
+            }
+            History { cfg, ops }
+        })
+        .boxed()
+}
+
 // ------------------------------------------------------------------------------------------------
 // interpreter
 
@@ -719,10 +747,13 @@ impl Interp {
             }
             Op::Claim { u, to } => vec![ROp::Claim { user: self.claimant(*u), to: to.map(|t| self.user(t)) }],
             Op::Accrue { v, coin, amt } => {
-                let validator = self.val(*v);
-                if w.delegation(HUB, &validator) == 0 {
-                    return noop("accrue: hub has no delegation there");
-                }
+                // first validator at index >= v (wrapping) on which the hub has stake
+                let n = self.cfg.n_vals;
+                let v0 = clampu(*v, n);
+                let validator = match (0..n).map(|k| val((v0 + k) % n)).find(|x| w.delegation(HUB, x) > 0) {
+                    Some(x) => x,
+                    None => return noop("accrue: hub has no delegation"),
+                };
                 let denom = [USEI, KUSD, UATOM, UJUNK][(*coin as usize).min(3)];
                 let mut amount = amt.resolve(1_000_000);
                 // envelope E1: keep every balance, pool and the reward index in range
